@@ -55,13 +55,18 @@ def h_curve(cx, p, kv, dim=2, rational=False, symk=False, span=None, normalize=F
     cx.eq('evaluator.evaluate', ev, [ref])
 
 
-def h_curve_grid(cx, p, kv, dim, rational, ss):
+def h_curve_grid(cx, p, kv, dim, rational, ss, start=None, stop=None):
     c, K, P, W, n = _curve_setup(cx, p, kv, dim, rational)
     c.sample_size = ss
-    c.evaluate()
+    if start is None:
+        c.evaluate()
+        a, b = kv[p], kv[n]
+    else:
+        # a segment [start, stop] of the domain; start > stop sweeps it backwards
+        c.evaluate(start=cx.const(start), stop=cx.const(stop))
+        a, b = start, stop
     pts = c.evalpts
     cx.check('grid_len', len(pts) == ss, 'len(evalpts)=%d, sample_size=%d' % (len(pts), ss))
-    a, b = kv[p], kv[n]
     for i in range(min(ss, len(pts))):
         ui = cx.const(a + (b - a) * F(i, ss - 1))
         cx.eq('grid[%d]' % i, pts[i], oracles.curve_point_def(p, K, P, W, ui, cx))
@@ -76,6 +81,34 @@ def _surf_setup(cx, pu, pv, kvu, kvv, dim, rational, **kw):
     return s, Ku, Kv, P, W, su, sv
 
 
+def h_curve_grid_after_knot_edit(cx, p, kv, kv2, dim, rational, ss, normalize):
+    """read-modify-write of the knot vector between two grid evaluations: `k = c.knotvector; k[i] = x; c.knotvector = k`
+    (the list the shape handed out is edited in place and assigned back); the second grid is the definition's for kv2"""
+    c, K, P, W, n = _curve_setup(cx, p, kv, dim, rational, normalize_kv=normalize)
+    c.sample_size = ss
+    c.evaluate()
+    first = [list(q) for q in c.evalpts]
+    k = c.knotvector
+    K2 = cx.consts(kv2)
+    try:
+        for i in range(len(K2)):
+            k[i] = K2[i]
+    except TypeError:
+        k = list(K2)           # the getter hands out an immutable sequence
+    c.knotvector = k
+    c.evaluate()
+    pts = c.evalpts
+    cx.check('grid_len', len(pts) == ss)
+    a, b = kv2[p], kv2[n]
+    for i in range(ss):
+        ui = cx.const(a + (b - a) * F(i, ss - 1))
+        cx.eq('grid_after[%d]' % i, pts[i], oracles.curve_point_def(p, K2, P, W, ui, cx))
+    a, b = kv[p], kv[n]
+    for i in range(ss):
+        ui = cx.const(a + (b - a) * F(i, ss - 1))
+        cx.eq('grid_before[%d]' % i, first[i], oracles.curve_point_def(p, K, P, W, ui, cx))
+
+
 def h_surface(cx, pu, pv, kvu, kvv, dim=3, rational=False):
     s, Ku, Kv, P, W, su, sv = _surf_setup(cx, pu, pv, kvu, kvv, dim, rational)
     u = cx.real('u', lo=Ku[pu], hi=Ku[su], param=True)
@@ -86,14 +119,18 @@ def h_surface(cx, pu, pv, kvu, kvv, dim=3, rational=False):
     cx.eq('derivatives0', s.derivatives(u, v, 0)[0][0], ref)
 
 
-def h_surface_grid(cx, pu, pv, kvu, kvv, dim, rational, ssu, ssv):
+def h_surface_grid(cx, pu, pv, kvu, kvv, dim, rational, ssu, ssv, rng=None):
     s, Ku, Kv, P, W, su, sv = _surf_setup(cx, pu, pv, kvu, kvv, dim, rational)
     s.sample_size_u = ssu
     s.sample_size_v = ssv
-    s.evaluate()
+    if rng is None:
+        s.evaluate()
+        au, bu, av, bv = kvu[pu], kvu[su], kvv[pv], kvv[sv]
+    else:
+        au, bu, av, bv = rng          # a sub-rectangle; start > stop sweeps a direction backwards
+        s.evaluate(start_u=cx.const(au), stop_u=cx.const(bu), start_v=cx.const(av), stop_v=cx.const(bv))
     pts = s.evalpts
     cx.check('grid_len', len(pts) == ssu * ssv, 'len(evalpts)=%d' % len(pts))
-    au, bu, av, bv = kvu[pu], kvu[su], kvv[pv], kvv[sv]
     for i in range(ssu):
         for j in range(ssv):
             idx = j + ssv * i
@@ -184,6 +221,22 @@ def instances(tier):
     for p in (1, 2, 3):
         out.append(inst('curvegrid p%d unclamped ss4' % p, h_curve_grid, p=p, kv=fam.unclamped_unit(p, p + 2), dim=2, rational=(p == 2), ss=4))
         out.append(inst('curvegrid p%d unclamped[p,n] ss3' % p, h_curve_grid, p=p, kv=fam.unclamped_uniform(p, p + 3), dim=2, rational=(p != 2), ss=3))
+    for p, m, rational, (a, b), ss in [(2, (1, 1), False, (F(1, 10), F(9, 10)), 5), (2, (1, 1), True, (F(9, 10), F(1, 10)), 5), (3, (2,), False, (F(1), F(0)), 4),
+                                       (1, (1, 1, 1), True, (F(4, 5), F(1, 5)), 4), (3, (1, 1), True, (F(7, 8), F(1, 8)), 7)]:
+        out.append(inst('curvegrid p%d m%s segment[%s,%s] ss%d %s' % (p, m, a, b, ss, 'rat' if rational else 'nonrat'), h_curve_grid,
+                        p=p, kv=fam.pattern(p, m), dim=2, rational=rational, ss=ss, start=a, stop=b))
+    out.append(inst('curvegrid p2 unclamped segment backwards ss4', h_curve_grid, p=2, kv=fam.unclamped_unit(2, 5), dim=2, rational=False, ss=4,
+                    start=fam.unclamped_unit(2, 5)[5], stop=fam.unclamped_unit(2, 5)[2]))
+    for (pu, pv), (mu, mv), rational, rng, (ssu, ssv) in [((1, 2), ((1,), (1,)), False, (F(0), F(1), F(1), F(0)), (3, 4)), ((2, 1), ((1, 1), ()), True, (F(9, 10), F(1, 10), F(1, 5), F(4, 5)), (4, 2)),
+                                                       ((2, 2), ((1,), (1,)), False, (F(1, 4), F(3, 4), F(3, 4), F(1, 4)), (3, 3))]:
+        out.append(inst('surfgrid p%d,%d m%s,%s sub-rectangle%s ss%dx%d %s' % (pu, pv, mu, mv, tuple(str(x) for x in rng), ssu, ssv, 'rat' if rational else 'nonrat'), h_surface_grid, timeout=600,
+                        pu=pu, pv=pv, kvu=fam.pattern(pu, mu), kvv=fam.pattern(pv, mv), dim=3, rational=rational, ssu=ssu, ssv=ssv, rng=rng))
+    for p, kv, kv2, rational, normalize in [(2, [0, 0, 0, F(1, 4), F(1, 2), 1, 1, 1], [0, 0, 0, F(1, 2), F(3, 4), 1, 1, 1], False, True),
+                                            (2, [0, 0, 0, F(1, 4), F(1, 2), 1, 1, 1], [0, 0, 0, F(1, 2), F(3, 4), 1, 1, 1], True, False),
+                                            (3, [0, 0, 0, 0, F(1, 3), 1, 1, 1, 1], [0, 0, 0, 0, F(2, 3), 1, 1, 1, 1], False, False),
+                                            (1, [2, 2, 3, 4, 5, 5], [2, 2, F(5, 2), F(9, 2), 5, 5], True, False)]:
+        out.append(inst('curvegrid p%d knots edited in place between two evaluations %s normalize_kv=%s' % (p, 'rat' if rational else 'nonrat', normalize), h_curve_grid_after_knot_edit,
+                        p=p, kv=kv, kv2=kv2, dim=2, rational=rational, ss=5, normalize=normalize))
     out.append(inst('curvegrid p2 domain[2,5] ss4', h_curve_grid, p=2, kv=fam.pattern(2, (1,), 2, 5), dim=2, rational=True, ss=4))
     # surfaces
     surf = [((1, 2), ((1,), ())), ((2, 1), ((), (1,))), ((2, 2), ((1,), (2,))), ((3, 2), ((), (1,)))]
